@@ -1,7 +1,17 @@
+"""C08 - concurrent transactions on a tree merge, serialize or conflict - nothing else."""
 from props import _generic as g
 
 
 def run(ctx):
     fns = g.run_pyvc(ctx, "C08")
-    ctx.standin("conc_rt", families=tuple("OO,II".split(",")))
-    return "proof", "Engine P obligations on %d functions of _base.py for C08 plus the bounded stand-in conc_rt" % len(fns)
+    fams = ["II", "OO"] if ctx.tier == "quick" else ["II", "OO", "LF", "QQ", "fs", "IO"]
+    ctx.cvc(fams, ["T-RC"])
+    ctx.standin("conc_rt", families=("OO", "II") if ctx.tier == "quick" else ("OO", "II", "LF", "QQ", "fs"))
+    return "other", (
+        "Second sentence of the statement, proved for all trees in both implementations: Python _Tree._set/_del "
+        "call readCurrent(self) before every descent when the node is stored (typestate view, child calls "
+        "havocked), tree lookups declare none; C: T-RC on every function of the translation units (%s) - "
+        "_BTree_set reaches its recursive / leaf call only after cPersistenceCAPI->readCurrent(self), and no "
+        "call chain from a reader reaches readCurrent. The refusal of multi-leaf states (reason 11) is proved for "
+        "_get_simple_btree_bucket_state. The outcome trichotomy over schedules is NOT within this family's reach "
+        "(DESIGN.md section 10): bounded stand-in conc_rt (stub optimistic commit); the leaf merges are C07 (merge_rt)." % ", ".join(fams))
